@@ -30,6 +30,8 @@ pub static SPEC: Spec = Spec {
         "config:instrumented:tiny",
         "config:disk:none",
         "config:disk:tiny",
+        "config:disk-overwritten:none",
+        "config:memory-overwritten:none",
         "disk_hole_punched",
         "disk_tail_truncated",
         "steps_compared",
@@ -42,8 +44,12 @@ pub static SPEC: Spec = Spec {
 };
 
 fn open_core(b: &Backend, key: Option<PartialKeypair>, open: bool, cache: CacheMode) -> Result<Hypercore, String> {
+    open_core_ow(b, key, open, cache, false)
+}
+
+fn open_core_ow(b: &Backend, key: Option<PartialKeypair>, open: bool, cache: CacheMode, overwrite: bool) -> Result<Hypercore, String> {
     let r = exec::call(async {
-        let storage = b.storage().await?;
+        let storage = b.storage_with(overwrite).await?;
         let mut bd = HypercoreBuilder::new(storage);
         if let Some(k) = key {
             bd = bd.key_pair(k);
@@ -128,15 +134,32 @@ fn apply_op(core: &mut Hypercore, op: &Op) -> String {
 
 /// Execute a script under one configuration.
 pub fn run_script(steps: &[Step], key: &SigningKey, wb: &Backend, rb: Option<&Backend>, cache: CacheMode) -> Vec<Trace> {
+    run_script_ow(steps, key, wb, rb, cache, false)
+}
+
+/// `dirty`: the stores first receive an unrelated, longer core; the script's core is then created
+/// with the overwrite flag, which must give exactly the behaviour and bytes of fresh stores.
+pub fn run_script_ow(steps: &[Step], key: &SigningKey, wb: &Backend, rb: Option<&Backend>, cache: CacheMode, dirty: bool) -> Vec<Trace> {
     let mut out = vec![];
-    let mut w = match open_core(wb, Some(keypair(key, true)), false, cache) {
+    if dirty {
+        let other = ops::key_from_seed(0xD1D7);
+        for b in [Some(wb), rb].into_iter().flatten() {
+            if let Ok(mut c) = open_core(b, Some(keypair(&other, true)), false, CacheMode::None) {
+                for i in 0..9u32 {
+                    let _ = exec::call(c.append(&crate::rng::block_bytes(0x0F00_0000 + i, 700)));
+                }
+                let _ = exec::call(c.clear(2, 3));
+            }
+        }
+    }
+    let mut w = match open_core_ow(wb, Some(keypair(key, true)), false, cache, dirty) {
         Ok(c) => Some(c),
         Err(e) => {
             out.push(Trace { res: format!("writer build: {e}"), wobs: None, robs: None, wfiles: [0; 4], rfiles: [0; 4], wlens: [0; 4] });
             return out;
         }
     };
-    let mut rp = rb.and_then(|b| open_core(b, Some(keypair(key, false)), false, cache).ok());
+    let mut rp = rb.and_then(|b| open_core_ow(b, Some(keypair(key, false)), false, cache, dirty).ok());
     for st in steps {
         let res = match st {
             Step::W(Op::Reopen) => {
@@ -328,9 +351,11 @@ fn run_configs(ctx: &mut Ctx, steps: &[Step], key_seed: u64, with_disk: bool, ta
         }
     };
     let run = |kind: u8, cache: CacheMode| -> Vec<Trace> {
+        let dirty = kind >= 10;
+        let kind = kind % 10;
         let wb = mk(kind, "w");
         let rb = if has_replica { Some(mk(kind, "r")) } else { None };
-        let t = run_script(steps, &key, &wb, rb.as_ref(), cache);
+        let t = run_script_ow(steps, &key, &wb, rb.as_ref(), cache, dirty);
         wb.cleanup();
         if let Some(b) = &rb {
             b.cleanup();
@@ -345,9 +370,13 @@ fn run_configs(ctx: &mut Ctx, steps: &[Step], key_seed: u64, with_disk: bool, ta
         (1, CacheMode::None, "memory:none"),
         (1, CacheMode::Tiny, "memory:tiny"),
     ];
+    // stores that held another core before and are reset through the overwrite flag
+    configs.push((10, CacheMode::None, "instrumented-overwritten:none"));
+    configs.push((11, CacheMode::None, "memory-overwritten:none"));
     if with_disk {
         configs.push((2, CacheMode::None, "disk:none"));
         configs.push((2, CacheMode::Tiny, "disk:tiny"));
+        configs.push((12, CacheMode::None, "disk-overwritten:none"));
     }
     for (kind, cache, name) in configs {
         let t = run(kind, cache);
@@ -359,7 +388,7 @@ fn run_configs(ctx: &mut Ctx, steps: &[Step], key_seed: u64, with_disk: bool, ta
         if !compare(ctx, &reference, &t, "instrumented:none", name, bytes_too, steps) {
             return;
         }
-        if kind == 2 {
+        if kind % 10 == 2 {
             // coverage: did this script punch holes / truncate on disk?
             let mut prev_len = 0usize;
             for (i, s) in steps.iter().enumerate() {
